@@ -9,7 +9,12 @@ VARIABLE l
 Init == l = 1
 Next == l <= Len(Rec) /\ l' = l + 1
 TJ(j) == IF j.k = "bv" THEN BVT(j.w) ELSE ArrT(j.iw, j.dw)
+CmdWhy(r) == IF r.kind = "panic" THEN "panic"
+             ELSE IF r.kind = "error" THEN "a command the writer emitted was rejected by the reader"
+             ELSE IF r.read # r.written THEN "a command was read back as a different command"
+             ELSE "ok"
 Why(r) ==
+  IF r.ev = "Cmd" THEN CmdWhy(r) ELSE
   IF r.malformed = 1 THEN (IF r.kind = "error" THEN "ok" ELSE IF r.kind = "panic" THEN "panic on malformed text" ELSE "malformed text was read as a value")
   ELSE IF r.kind = "panic" THEN "panic"
   ELSE IF r.kind = "error" THEN "well-formed model value was rejected"
